@@ -87,6 +87,15 @@ pub fn reset_faults(call_budget: u64) {
     ARRIVALS.with(|c| c.set(0));
     CALL_BUDGET.with(|c| c.set(call_budget));
 }
+/// Snapshot / restore of the per-execution device counters (around a muted prelude).
+pub fn save_counters() -> (FaultCounts, u64, u64) {
+    (FIRED.with(|c| c.get()), ARRIVALS.with(|c| c.get()), CALL_BUDGET.with(|c| c.get()))
+}
+pub fn restore_counters(s: (FaultCounts, u64, u64)) {
+    FIRED.with(|c| c.set(s.0));
+    ARRIVALS.with(|c| c.set(s.1));
+    CALL_BUDGET.with(|c| c.set(s.2));
+}
 pub fn fired() -> FaultCounts {
     FIRED.with(|c| c.get())
 }
